@@ -612,7 +612,10 @@ func (c *pctx) funcdef(t *rapid.T) (string, int) {
 
 func (c *pctx) builtin(t *rapid.T) string {
 	c.feat("builtin")
-	switch rapid.IntRange(0, 23).Draw(t, "builtin") {
+	switch rapid.IntRange(0, 24).Draw(t, "builtin") {
+	case 24:
+		c.feat("tail-template")
+		return pick(t, "tailtemplate", rwTail)
 	case 21, 22, 23:
 		// lexical scope: a definition or binding made inside a sub-expression
 		// must not be visible after it
@@ -829,6 +832,26 @@ var rwTail = []string{
 	"def f: if . < 3 then (. + 1) as $x | $x | f else . end; f",
 	"def g: if . < 2 then . + 1 | g else . end; def f: if . < 4 then . + 1 | g | f else . end; f",
 	"[recurse(if . < 3 then . + 1 else empty end)]",
+	// self tail calls behind an operator / native call whose operand is a
+	// one-instruction generator (nullary generator function, .[], ..)
+	"def d: \"0\", \"1\"; def bits: if length >= 3 then . else . + d | bits end; \"\" | [bits]",
+	"def d: 1, 2; def f: if . >= 4 then . else . + d | f end; 0 | [f]",
+	"def d: 1, 2; def f: if . >= 4 then . else d + . | f end; 0 | [f]",
+	"def d: 1, 2; def f: if . >= 6 then . else . * d + 1 | f end; 1 | [limit(6; f)]",
+	"def d: \"a\", \"b\"; def f: if length > 2 then . else [.[], d] | f end; [] | [f]",
+	"def d: 1, 2; def f: if . > 3 then . else (. + d) as $x | $x | f end; 0 | [f]",
+	"def ks: keys[]; def leaf: if type != \"array\" then . else .[ks] | leaf end; [[1,2],[3,[4,5]]] | [leaf]",
+	"def leaf: if type != \"array\" then . else .[] | leaf end; [[1,2],[3,[4,5]]] | [leaf]",
+	"def d: 3, 4; def climb: if . >= 3 then . else [., d] | max | climb end; 0 | [climb]",
+	"def d: 0, 1; def f: if length >= 2 then . else . + [d] | f end; [] | [f]",
+	"def d: 1, 2; def f: if . >= 3 then . else . + d | f end; [0 | f] | length",
+	"def d: 1, 2; def f: if . >= 3 then . else (. + d | f), -1 end; 0 | [f]",
+	"def d: 1, 2; def f: if . >= 3 then . else ., (. + d | f) end; 0 | [f]",
+	"def f: if . >= 3 then . else . + (1, 2) | f end; 0 | [f]",
+	"def d: 1, 2; def f: if . >= 3 then . else ltrimstr(d) | . + d | f end; 0 | [f]",
+	"def d: .[]; def f: if type == \"number\" then . else [d] | add | f end; [[1,2],[3]] | [f]?",
+	"def d: 1, 2; def f: if . >= 3 then . else . + d | . + d | f end; 0 | [f]",
+	"def d: 1, 2; def g: if . >= 3 then . else . + d | g end; def f: if . >= 5 then . else . + d | g | f end; 0 | [f]",
 	"[limit(5; repeat(1))]", "last(range(5))", "[range(0; 10; 3)]", "until(. > 4; . + 1)", "[while(. < 3; . + 1)]",
 }
 
